@@ -157,14 +157,33 @@ def check(run):
     sess = O.ref_avp(263, 0x40, 0, b"sess;9;9")
     pinfo = O.ref_avp(284, 0x40, 0, O.ref_avp(280, 0x40, 0, b"p.example.net") + O.ref_avp(33, 0x40, 0, b"\x01\x02"))
     for code in untyped:
-        for body, label in ((sess + pinfo + pinfo, "session+2 proxy-info"), (b"", "no AVPs"), (pinfo, "proxy-info only")):
+        sess2 = O.ref_avp(263, 0x40, 0, b"sess;other")
+        for body, label in ((sess + pinfo + pinfo, "session+2 proxy-info"), (b"", "no AVPs"), (pinfo, "proxy-info only"),
+                            (sess + sess2 + pinfo, "session (repeated: the first counts)+proxy-info")):
             for fbits in (0x80, 0xc0, 0x90):
                 wire = bytes([1]) + (20 + len(body)).to_bytes(3, "big") + bytes([fbits]) + code.to_bytes(3, "big") + \
                     (16777238).to_bytes(4, "big") + (77).to_bytes(4, "big") + (88).to_bytes(4, "big") + body
                 req = Message.from_bytes(wire)
-                a = node._generate_answer(None, req)
-                node._set_result_code(a, 3007) if hasattr(node, "_set_result_code") else None
-                got = O.ref_parse_avps(a.as_bytes()[20:])
+                try:
+                    n_sid = len(req.find_avps((263, 0)))
+                    req_bytes = req.as_bytes()
+                    first = node._generate_answer(None, req)
+                    first_bytes = first.as_bytes()
+                    a = node._generate_answer(None, req)          # a second answer from the same request object
+                    if req.as_bytes() != req_bytes or len(req.find_avps((263, 0))) != n_sid or a.as_bytes() != first_bytes:
+                        run.violation("request-unmodified", {"command": code, "class": type(req).__name__, "request": label, "flags": fbits, "via": "node"},
+                                      {"request_changed": req.as_bytes() != req_bytes, "session_id_search_before_after": [n_sid, len(req.find_avps((263, 0)))],
+                                       "second_answer_equals_first": a.as_bytes() == first_bytes},
+                                      "the request (and what a search in it returns) is as before; a second answer equals the first",
+                                      what=f"generating an answer to command {code} modifies the request")
+                    node._set_result_code(a, 3007) if hasattr(node, "_set_result_code") else None
+                    got = O.ref_parse_avps(a.as_bytes()[20:])
+                except Exception as e:   # noqa
+                    run.count(1, [("gen-untyped", code, label, fbits)])
+                    run.violation("generated-answer-base-avps", {"command": code, "class": type(req).__name__, "request": label, "flags": fbits, "via": "node"},
+                                  f"{type(e).__name__}: {e}", "an answer",
+                                  what=f"the node cannot build its answer to command {code} ({label}): {type(e).__name__}")
+                    continue
                 case = {"command": code, "class": type(req).__name__, "request": label, "flags": fbits, "via": "node"}
                 n_gen += 1
                 run.count(1, [("gen-untyped", code, label, fbits)])
@@ -192,7 +211,76 @@ def check(run):
         run.mismatch("to_answer model vs implementation", meta[i], cases[i][-300:])
     for e in errs:
         run.mismatch("coq evaluation", {}, e)
+    node_answers(run)
     return run.finish()
+
+
+def node_answers(run):
+    """Answers a RUNNING node generates on its own paths (duplicate rejection, routing errors, validation, watchdog,
+    handler failure), read back from the virtual socket byte by byte: R, E-as-sent and T bits, P mirrored, identifiers
+    mirrored, Origin-Host of the node."""
+    import nodesim as NS
+    from vsim import Sim
+    sim = Sim(seed=1, t0=NS.T0)
+    try:
+        sim.script_random([77, 12345])
+        node = sim.node_mod.Node("srv.example.net", "example.net", ip_addresses=["10.0.0.1"], tcp_port=3868)
+
+        def handler(app_, msg):
+            if str(getattr(msg, "session_id", "")).startswith("raise;"):
+                raise RuntimeError("handler failed")
+            return app_.generate_answer(msg, 2001)
+        app = sim.app_mod.SimpleThreadingApplication(4, is_auth_application=True, request_handler=handler)
+        node.add_application(app, [node.add_peer("aaa://cli0.example.net", "example.net")])
+        node.start()
+        sim.run()
+        sim.script_random([1000])
+        r = sim.connect_in()
+        sim.run()
+        r.feed(NS.build_message(dict(kind="cer", host="cli0.example.net", hbh=1, e2e=1)))
+        sim.run()
+        r.take_sent()
+        specs = [("request answered by the application", dict(kind="req", hbh=10, e2e=110, host="cli0.example.net"), 2001),
+                 ("T-flagged repeat of the answered request", dict(kind="req", hbh=11, e2e=110, host="cli0.example.net", t=True), 5012),
+                 ("request for an application nobody registered", dict(kind="req", hbh=12, e2e=112, host="cli0.example.net", app=777), 3007),
+                 ("request for a realm not served", dict(kind="req", hbh=13, e2e=113, host="cli0.example.net", drealm="nowhere.example.com"), 3003),
+                 ("request lacking a required AVP", dict(kind="req", hbh=14, e2e=114, host="cli0.example.net", no_type=True), 5005),
+                 ("request whose handler raises", dict(kind="req", hbh=15, e2e=115, host="cli0.example.net", raises=True), 5012),
+                 ("watchdog request", dict(kind="dwr", hbh=16, e2e=116, host="cli0.example.net"), 2001),
+                 ("T-flagged watchdog request", dict(kind="dwr", hbh=17, e2e=117, host="cli0.example.net"), 2001)]
+        for label, spec, want_rc in specs:
+            for pbit in (0, 0x40):
+                fr = bytearray(NS.build_message(dict(spec, hbh=spec["hbh"] + (100 if pbit else 0), e2e=spec["e2e"] + (1000 if pbit and "repeat" not in label else 0))))
+                fr[4] = (fr[4] & ~0x40) | pbit
+                if label == "T-flagged watchdog request":
+                    fr[4] |= 0x10
+                r.feed(bytes(fr))
+                sim.run()
+                sim.advance(1)
+                out = r.take_sent()
+                run.count(1, [("node-answer", label, pbit)])
+                case = {"via": "running node", "request": label, "request_flags": fr[4]}
+                answers = []
+                while len(out) >= 20:
+                    ln = int.from_bytes(out[1:4], "big")
+                    answers.append(out[:ln])
+                    out = out[ln:]
+                mine = [a for a in answers if a[12:20] == bytes(fr[12:20])]
+                if len(mine) != 1:
+                    run.violation("generated-header", case, f"{len(mine)} answers", "one answer", what=f"{label}: {len(mine)} answers on the socket")
+                    continue
+                a = mine[0]
+                avps = O.ref_parse_avps(a[20:])
+                rc = next((int.from_bytes(p_, "big") for c_, _f, v_, p_ in avps if (c_, v_) == (268, 0)), None)
+                oh = [p_ for c_, _f, v_, p_ in avps if (c_, v_) == (264, 0)]
+                if a[4] & 0x90 or (a[4] & 0x40) != pbit or a[5:12] != bytes(fr[5:12]) or oh != [b"srv.example.net"] or rc != want_rc:
+                    run.violation("generated-header", case, {"flags": a[4], "result_code": rc, "origin_host": [x.decode(errors="replace") for x in oh]},
+                                  {"flags": "R and T clear, P as in the request", "result_code": want_rc, "origin_host": "srv.example.net"},
+                                  what=f"{label}: the node's answer has flags {a[4]:#04x} / result {rc}")
+        if sim.thread_deaths:
+            run.violation("generated-header", {"via": "running node"}, [str(d)[:80] for d in sim.thread_deaths])
+    finally:
+        sim.shutdown()
 
 
 def replay(r):
